@@ -68,6 +68,7 @@ func floor(s *slip.Scope, f slip.Object, args slip.List, depth int) slip.Values 
 		div = args[1]
 	}
 	num, div = slip.NormalizeNumber(num, div)
+	zeroDivisorCheck(s, depth, "floor", args, div)
 
 	switch tn := num.(type) {
 	case slip.Fixnum:
@@ -205,4 +206,21 @@ func floor(s *slip.Scope, f slip.Object, args slip.List, depth int) slip.Values 
 		slip.TypePanic(s, depth, "number", tn, "real")
 	}
 	return slip.Values{q, r}
+}
+
+// zeroDivisorCheck raises a division-by-zero error if the divisor of a
+// rounding division is an exact zero.
+func zeroDivisorCheck(s *slip.Scope, depth int, name string, args slip.List, div slip.Object) {
+	zero := false
+	switch td := div.(type) {
+	case slip.Fixnum:
+		zero = td == 0
+	case *slip.Bignum:
+		zero = (*big.Int)(td).Sign() == 0
+	case *slip.Ratio:
+		zero = (*big.Rat)(td).Sign() == 0
+	}
+	if zero {
+		slip.DivisionByZeroPanic(s, depth, slip.Symbol(name), args, "divide by zero")
+	}
 }
